@@ -47,6 +47,25 @@ def make_rows():
 ROWS = make_rows()
 
 
+# Columns built from SQL text (F.expr / SQL-string Column): text -> (type, parse tree as a Coq sexpr term).
+# The tree is what sqlglot's Spark reader builds for the text (tie T2 compares the emitted text and DuckDB's parse).
+_c = lambda n: f'(SCol "{n}"%string)'
+_i = lambda k: f"(SLit (VInt ({k})%Z))"
+EXPRS = {
+    "a - b": ("int", f"(SBin Sub {_c('a')} {_c('b')})"),
+    "a + 1": ("int", f"(SBin Add {_c('a')} {_i(1)})"),
+    "a * b - 1": ("int", f"(SBin Sub (SBin Mul {_c('a')} {_c('b')}) {_i(1)})"),
+    "a % 2": ("int", f"(SBin Mod {_c('a')} {_i(2)})"),
+    "(a - b)": ("int", f"(SParen (SBin Sub {_c('a')} {_c('b')}))"),
+    "p OR q": ("bool", f"(SBin Or {_c('p')} {_c('q')})"),
+    "p AND q": ("bool", f"(SBin And {_c('p')} {_c('q')})"),
+    "a > 0 AND p": ("bool", f"(SBin And (SBin Gt {_c('a')} {_i(0)}) {_c('p')})"),
+    "a = b": ("bool", f"(SBin Eq {_c('a')} {_c('b')})"),
+    "NOT p": ("bool", f"(SNot {_c('p')})"),
+    "a IS NULL": ("bool", f"(SIsNull {_c('a')})"),
+}
+
+
 # ---------------------------------------------------------------------------------------------- Coq terms
 def val_coq(v) -> str:
     if v is None:
@@ -66,6 +85,8 @@ def val_coq(v) -> str:
 
 def to_coq(t) -> str:
     k = t[0]
+    if k == "expr":
+        return f"(UExpr {EXPRS[t[1]][1]})"
     if k == "col":
         return f"(UCol {strlit(t[1])})"
     if k == "lit":
@@ -118,6 +139,8 @@ def env_coq(row) -> str:
 # ---------------------------------------------------------------------------------------------- source text
 def to_src(t) -> str:
     k = t[0]
+    if k == "expr":
+        return f"expr({t[1]!r})"
     if k == "col":
         return f"col('{t[1]}')"
     if k == "lit":
@@ -169,6 +192,8 @@ def to_col(t, F, hole=None):
     ("whenx", more, otherwise) for hole.when(..)...[.otherwise(..)] (a shared when-chain prefix)"""
     import operator
     k = t[0]
+    if k == "expr":
+        return F.expr(t[1])
     if k == "hole":
         return hole
     if k == "whenx":
@@ -235,7 +260,7 @@ def subst(ctx, u):
                 None if ctx[2] is None else subst(ctx[2], u))
     if ctx[0] == "when":
         return ("when", [(subst(c, u), subst(v, u)) for c, v in ctx[1]], None if ctx[2] is None else subst(ctx[2], u))
-    if ctx[0] in ("col", "lit", "py"):
+    if ctx[0] in ("col", "lit", "py", "expr"):
         return ctx
     if ctx[0] == "isin":
         return ("isin", subst(ctx[1], u), ctx[2])
@@ -292,7 +317,7 @@ def shared_programs(rnd, n_random=40):
 
 def children(t):
     k = t[0]
-    if k in ("col", "lit", "py"):
+    if k in ("col", "lit", "py", "expr"):
         return []
     if k == "bin":
         return [t[2], t[3]]
@@ -334,7 +359,7 @@ def from_json(x):
             return ("whenx", [(from_json(c), from_json(v)) for c, v in x[1]], None if x[2] is None else from_json(x[2]))
         if x and x[0] == "when":
             return ("when", [(from_json(c), from_json(v)) for c, v in x[1]], None if x[2] is None else from_json(x[2]))
-        if x and x[0] in ("lit", "py"):
+        if x and x[0] in ("lit", "py", "expr"):
             return (x[0], x[1])
         if x and x[0] == "rbin":
             return ("rbin", x[1], x[2], from_json(x[3]))
@@ -353,6 +378,8 @@ class Gen:
 
     def leaf(self, ty):
         r = self.r
+        if ty in ("int", "bool") and r.random() < 0.08:      # a Column built from SQL text, as an operand
+            return ("expr", r.choice([k for k, v in EXPRS.items() if v[0] == ty]))
         if ty in ("int", "num"):
             return r.choice([("col", "a"), ("col", "b"), ("col", "a"), ("lit", r.choice([0, 1, 2, -1, 3]))])
         if ty == "str":
@@ -493,6 +520,8 @@ def exhaustive(max_depth=2):
                  ("like", S, "a%"), ("ilike", S, "A%"), ("rlike", S, "a"), ("startswith", S, ("py", "a")),
                  ("startswith", S, T), ("when", [(P, Q)], ("py", False)), ("cast", A, "boolean"), ("alias", P, "z")],
     }
+    d1["int"] += [("expr", k) for k, v in EXPRS.items() if v[0] == "int"]
+    d1["bool"] += [("expr", k) for k, v in EXPRS.items() if v[0] == "bool"]
     D = ("col", "d")
     d1["int"] += [("cast", D, "int"), ("cast", D, "bigint"), ("cast", ("cast", A, "double"), "int"),
                   ("cast", ("cast", D, "bigint"), "int")]
